@@ -437,10 +437,21 @@ Qed.
 Lemma frame_panicked pr o x : p_panic pr = Some x -> frame pr o = pr.
 Proof. intros H. unfold frame. rewrite H. reflexivity. Qed.
 
-Lemma frame_end_c1 pr : c1 (frame_end pr) = c1 pr /\ p_finished_events (frame_end pr) = p_finished_events pr.
+(* the end of a frame leaves the c1 fields alone, except that the last schedule advances the tick *)
+Lemma frame_end_c1 pr :
+  c1 (frame_end pr) = (s_client pr, s_server pr, s_next_client pr, s_next_server pr, n_setup pr, p_order pr,
+                       p_cond_bit pr, p_tick pr + 1, p_last_run pr)
+  /\ p_finished_events (frame_end pr) = p_finished_events pr.
 Proof.
   unfold frame_end, last_schedule. destruct (p_panic pr); [split; reflexivity|].
-  destruct (flush_c1 pr) as [H1 H2]. split; [rewrite <- H1|rewrite <- H2]; reflexivity.
+  destruct (flush_c1 pr) as [H1 H2]. split; [|rewrite <- H2; reflexivity].
+  unfold c1 in H1. injection H1 as E1 E2 E3 E4 E5 E6 E7 E8 E9.
+  unfold c1. cbn. congruence.
+Qed.
+Lemma frame_end_cA pr : cA (frame_end pr) = cA pr.
+Proof.
+  destruct (frame_end_c1 pr) as [Hc _]. unfold c1 in Hc. injection Hc as E1 E2 E3 E4 E5 E6 E7 E8 E9.
+  unfold cA. congruence.
 Qed.
 
 Lemma frame_at_cA pr o l : cA (frame_at pr o l) = (default (s_client pr) (s_next_client pr),
@@ -498,7 +509,7 @@ Lemma frame_s_client pr o :
   p_panic pr = None -> s_client (frame pr o) = default (s_client pr) (s_next_client pr).
 Proof.
   intros Hp. rewrite frame_unfold by auto.
-  destruct (frame_end_c1 (frame_at pr o (p_order pr))) as [Hc _]. apply c1_cA in Hc.
+  pose proof (frame_end_cA (frame_at pr o (p_order pr))) as Hc.
   rewrite frame_at_cA in Hc. unfold cA in Hc. injection Hc; intros; congruence.
 Qed.
 
@@ -506,7 +517,7 @@ Lemma frame_s_server pr o :
   p_panic pr = None -> s_server (frame pr o) = default (s_server pr) (s_next_server pr).
 Proof.
   intros Hp. rewrite frame_unfold by auto.
-  destruct (frame_end_c1 (frame_at pr o (p_order pr))) as [Hc _]. apply c1_cA in Hc.
+  pose proof (frame_end_cA (frame_at pr o (p_order pr))) as Hc.
   rewrite frame_at_cA in Hc. unfold cA in Hc. injection Hc; intros; congruence.
 Qed.
 
@@ -1054,9 +1065,10 @@ Proof.
       eapply clock_le_trans; [exact IH|]. apply (run_system_step m s o Hpm). }
   destruct (frame_end_c1 (frame_at pr o (p_order pr))) as [Hc _].
   set (X := frame_at pr o (p_order pr)) in *.
-  assert (p_tick (frame_end X) = p_tick X) as Ht by exact (f_equal (fun c => snd (fst c)) Hc).
+  assert (p_tick (frame_end X) = p_tick X + 1) as Ht by exact (f_equal (fun c => snd (fst c)) Hc).
   assert (p_last_run (frame_end X) = p_last_run X) as Hl by exact (f_equal snd Hc).
-  destruct H as [H1 H2]. split; [rewrite Ht; exact H1|]. intros k t. rewrite Hl, Ht. apply H2.
+  destruct H as [H1 H2]. split; [rewrite Ht; lia|]. intros k t. rewrite Hl, Ht. intros Hk.
+  destruct (H2 k t Hk) as [Hold|Hnew]; [left; exact Hold|right; lia].
 Qed.
 
 Lemma prun_ticks_ok id st rg ord l : ticks_ok (prun (init_peer id st rg ord) l).
@@ -1075,7 +1087,7 @@ Definition ops_ok (l : list (app_op + frame_oracle)) : Prop := forall op, inl op
 Lemma frame_order pr o : p_order (frame pr o) = p_order pr.
 Proof.
   destruct (p_panic pr) eqn:Hp; [erewrite frame_panicked; eauto|]. rewrite frame_unfold by auto.
-  destruct (frame_end_c1 (frame_at pr o (p_order pr))) as [Hc _]. apply c1_cA in Hc.
+  pose proof (frame_end_cA (frame_at pr o (p_order pr))) as Hc.
   destruct (frame_at_fields pr o (p_order pr)) as (_ & _ & _ & F4).
   exact (eq_trans (f_equal snd Hc) F4).
 Qed.
@@ -1307,8 +1319,8 @@ Proof.
   destruct (n_setup pr) eqn:Hs.
   2:{ pose proof (frame_setup_inv pr o Hsi) as Hsi'.
       assert (n_setup (frame pr o) = false) as Hs'.
-      { rewrite frame_unfold by auto. destruct (frame_end_c1 (frame_at pr o (p_order pr))) as [Hc _].
-        apply c1_cA in Hc. destruct (frame_at_fields pr o (p_order pr)) as (_ & _ & F & _).
+      { rewrite frame_unfold by auto. pose proof (frame_end_cA (frame_at pr o (p_order pr))) as Hc.
+        destruct (frame_at_fields pr o (p_order pr)) as (_ & _ & F & _).
         rewrite <- Hs, <- F. exact (f_equal (fun c => snd (fst c)) Hc). }
       destruct (Hsi' Hs') as (E1 & E2 & _). rewrite E1, E2 in Hante.
       destruct Hante as [H|[H _]]; [discriminate|contradiction]. }
